@@ -74,152 +74,205 @@ func weightsOK(ws []int64) bool {
 	return sum > 0 && sum <= weightMax
 }
 
+// wellFormed is the first violated clause (the monitor's `firstViolation`), or "ok".
 func (sn *snapshot) wellFormed(invalid []string) string {
-	// names unique within a type
-	var names []string
-	for _, l := range sn.listeners {
-		names = append(names, l.Name)
+	all := sn.wellFormedAll(invalid)
+	if len(all) == 0 {
+		return "ok"
 	}
-	if d, ok := firstDup(names); ok {
-		return bad("lds-unique", d)
-	}
-	names = nil
-	for _, r := range sn.routes {
-		names = append(names, r.Name)
-	}
-	if d, ok := firstDup(names); ok {
-		return bad("rds-unique", d)
-	}
+	return all[0]
+}
+
+// wellFormedAll lists EVERY violated clause, in the monitor's clause order, each with the offending item of the
+// clause (the monitor's `allViolations`); empty = well-formed.
+func (sn *snapshot) wellFormedAll(invalid []string) []string {
+	listeners := sn.allListeners()
 	routeNames := map[string]bool{}
-	for _, n := range names {
-		routeNames[n] = true
+	for _, r := range sn.routes {
+		routeNames[r.Name] = true
 	}
-	names = nil
-	for _, c := range sn.clusters {
-		names = append(names, c.Name)
-	}
-	if d, ok := firstDup(names); ok {
-		return bad("cds-unique", d)
-	}
-	names = nil
 	claNames := map[string]bool{}
 	for _, e := range sn.endpoints {
-		names = append(names, e.ClusterName)
 		claNames[e.ClusterName] = true
 	}
-	if d, ok := firstDup(names); ok {
-		return bad("eds-unique", d)
-	}
-	// socket addresses
-	type la struct {
-		a   *core.Address
-		key string
-	}
-	var addrs []la
-	for _, l := range sn.listeners {
-		if l.GetAddress() != nil {
-			addrs = append(addrs, la{l.GetAddress(), addrKey(l.GetAddress())})
-		} else if l.GetInternalListener() != nil {
-			addrs = append(addrs, la{nil, "internal-listener:" + l.Name})
-		}
-		for _, a := range l.GetAdditionalAddresses() {
-			addrs = append(addrs, la{a.GetAddress(), addrKey(a.GetAddress())})
-		}
-	}
-	for i := range addrs {
-		for j := i + 1; j < len(addrs); j++ {
-			same := false
-			if addrs[i].a == nil || addrs[j].a == nil {
-				same = addrs[i].a == nil && addrs[j].a == nil && addrs[i].key == addrs[j].key
-			} else {
-				same = proto.Equal(addrs[i].a, addrs[j].a)
-			}
-			if same {
-				return bad("addr-unique", addrs[i].key)
-			}
-		}
-	}
-	// closure
-	reqRds := map[string]bool{}
-	for _, r := range sn.reqRds {
-		reqRds[r] = true
-	}
-	for _, l := range sn.listeners {
-		for _, r := range listenerRdsNames(l) {
-			if reqRds[r] && !routeNames[r] {
-				return bad("rds-closed", r)
-			}
-		}
-	}
-	reqEds := map[string]bool{}
-	for _, r := range sn.reqEds {
-		reqEds[r] = true
-	}
-	for _, c := range sn.clusters {
-		if c.GetType() != cluster.Cluster_EDS {
-			continue
-		}
-		n := c.GetEdsClusterConfig().GetServiceName()
-		if n == "" {
-			n = c.Name
-		}
-		if reqEds[n] && !claNames[n] {
-			return bad("eds-closed", c.Name)
-		}
-	}
 	// route configurations: RDS resources, then the inline ones of the listeners
-	all := append([]*route.RouteConfiguration{}, sn.routes...)
-	all = append(all, inlineRoutes(sn.listeners)...)
-	for _, rc := range all {
-		var vn []string
-		for _, vh := range rc.GetVirtualHosts() {
-			vn = append(vn, vh.Name)
-		}
-		if d, ok := firstDup(vn); ok {
-			return bad("vhost-name", rc.Name, d)
-		}
-	}
-	for _, rc := range all {
-		var ds []string
-		for _, vh := range rc.GetVirtualHosts() {
-			for _, d := range vh.GetDomains() {
-				ds = append(ds, asciiLower(d))
+	allRoutes := append([]*route.RouteConfiguration{}, sn.routes...)
+	allRoutes = append(allRoutes, inlineRoutes(sn.listeners)...)
+	clauses := []func() string{
+		func() string { // names unique within a type
+			var names []string
+			for _, l := range listeners {
+				names = append(names, l.Name)
 			}
-		}
-		if d, ok := firstDup(ds); ok {
-			return bad("dup-domain", rc.Name, d)
-		}
-	}
-	// filter chain matches
-	for _, l := range sn.listeners {
-		fcs := l.GetFilterChains()
-		for i := range fcs {
-			for j := i + 1; j < len(fcs); j++ {
-				if l.GetFilterChainMatcher() != nil {
-					// Matcher API: chains are selected by name, names must be unique
-					if fcs[i].GetName() == fcs[j].GetName() {
-						return bad("dup-fcm", l.Name, chainKey(l, fcs[i]))
+			if d, ok := firstDup(names); ok {
+				return bad("lds-unique", d)
+			}
+			return ""
+		},
+		func() string {
+			var names []string
+			for _, r := range sn.routes {
+				names = append(names, r.Name)
+			}
+			if d, ok := firstDup(names); ok {
+				return bad("rds-unique", d)
+			}
+			return ""
+		},
+		func() string {
+			var names []string
+			for _, c := range sn.clusters {
+				names = append(names, c.Name)
+			}
+			if d, ok := firstDup(names); ok {
+				return bad("cds-unique", d)
+			}
+			return ""
+		},
+		func() string {
+			var names []string
+			for _, e := range sn.endpoints {
+				names = append(names, e.ClusterName)
+			}
+			if d, ok := firstDup(names); ok {
+				return bad("eds-unique", d)
+			}
+			return ""
+		},
+		func() string { // socket addresses
+			type la struct {
+				a   *core.Address
+				key string
+			}
+			var addrs []la
+			for _, l := range listeners {
+				if l.GetAddress() != nil {
+					addrs = append(addrs, la{l.GetAddress(), addrKey(l.GetAddress())})
+				} else if l.GetInternalListener() != nil {
+					addrs = append(addrs, la{nil, "internal-listener:" + l.Name})
+				}
+				for _, a := range l.GetAdditionalAddresses() {
+					addrs = append(addrs, la{a.GetAddress(), addrKey(a.GetAddress())})
+				}
+			}
+			for i := range addrs {
+				for j := i + 1; j < len(addrs); j++ {
+					same := false
+					if addrs[i].a == nil || addrs[j].a == nil {
+						same = addrs[i].a == nil && addrs[j].a == nil && addrs[i].key == addrs[j].key
+					} else {
+						same = proto.Equal(addrs[i].a, addrs[j].a)
 					}
+					if same {
+						return bad("addr-unique", addrs[i].key)
+					}
+				}
+			}
+			return ""
+		},
+		func() string { // closure
+			reqRds := map[string]bool{}
+			for _, r := range sn.reqRds {
+				reqRds[r] = true
+			}
+			for _, l := range listeners {
+				for _, r := range listenerRdsNames(l) {
+					if reqRds[r] && !routeNames[r] {
+						return bad("rds-closed", r)
+					}
+				}
+			}
+			return ""
+		},
+		func() string {
+			reqEds := map[string]bool{}
+			for _, r := range sn.reqEds {
+				reqEds[r] = true
+			}
+			for _, c := range sn.clusters {
+				if c.GetType() != cluster.Cluster_EDS {
 					continue
 				}
-				if proto.Equal(matchOrEmpty(fcs[i]), matchOrEmpty(fcs[j])) {
-					return bad("dup-fcm", l.Name, fcmKey(fcs[i].GetFilterChainMatch()))
+				n := c.GetEdsClusterConfig().GetServiceName()
+				if n == "" {
+					n = c.Name
+				}
+				if reqEds[n] && !claNames[n] {
+					return bad("eds-closed", c.Name)
 				}
 			}
-		}
-	}
-	// weights
-	for _, rc := range all {
-		for _, vh := range rc.GetVirtualHosts() {
-			for _, ws := range weightLists(vh) {
-				if !weightsOK(ws) {
-					return bad("weights", rc.Name, vh.Name)
+			return ""
+		},
+		func() string {
+			for _, rc := range allRoutes {
+				var vn []string
+				for _, vh := range rc.GetVirtualHosts() {
+					vn = append(vn, vh.Name)
+				}
+				if d, ok := firstDup(vn); ok {
+					return bad("vhost-name", rc.Name, d)
 				}
 			}
+			return ""
+		},
+		func() string {
+			for _, rc := range allRoutes {
+				var ds []string
+				for _, vh := range rc.GetVirtualHosts() {
+					for _, d := range vh.GetDomains() {
+						ds = append(ds, asciiLower(d))
+					}
+				}
+				if d, ok := firstDup(ds); ok {
+					return bad("dup-domain", rc.Name, d)
+				}
+			}
+			return ""
+		},
+		func() string { // filter chain matches
+			for _, l := range listeners {
+				fcs := l.GetFilterChains()
+				for i := range fcs {
+					for j := i + 1; j < len(fcs); j++ {
+						if l.GetFilterChainMatcher() != nil {
+							// Matcher API: chains are selected by name, names must be unique
+							if fcs[i].GetName() == fcs[j].GetName() {
+								return bad("dup-fcm", l.Name, chainKey(l, fcs[i]))
+							}
+							continue
+						}
+						if proto.Equal(matchOrEmpty(fcs[i]), matchOrEmpty(fcs[j])) {
+							return bad("dup-fcm", l.Name, fcmKey(fcs[i].GetFilterChainMatch()))
+						}
+					}
+				}
+			}
+			return ""
+		},
+		func() string {
+			for _, rc := range allRoutes {
+				for _, vh := range rc.GetVirtualHosts() {
+					for _, ws := range weightLists(vh) {
+						if !weightsOK(ws) {
+							return bad("weights", rc.Name, vh.Name)
+						}
+					}
+				}
+			}
+			return ""
+		},
+		func() string {
+			if len(invalid) > 0 {
+				return bad("api-valid", invalid[0])
+			}
+			return ""
+		},
+	}
+	var out []string
+	for _, c := range clauses {
+		if v := c(); v != "" {
+			out = append(out, v)
 		}
 	}
-	if len(invalid) > 0 {
-		return bad("api-valid", invalid[0])
-	}
-	return "ok"
+	return out
 }
